@@ -212,6 +212,8 @@ pub fn replay_full(rf: &RunFile) -> (Option<engine::Violation>, Option<Vec<u16>>
                 gen::gen_migration(seed)
             } else if run == 77 {
                 gen::gen_volume(seed)
+            } else if run == 134 {
+                gen::gen_huge(seed)
             } else {
                 gen::gen_run(seed, gen::Mode::C17)
             };
